@@ -26,7 +26,7 @@ def run(t):
                        "that verifies. non-trivial = signing succeeded")
     run.cov["exhaustive"] = True
     run.assumptions += ["one fixture layout per type (the repository's functest packages); layout variety is exercised by C17/C18/C03 generators",
-                        "file token here; a PKCS#11 token (through real worker processes) signs and verifies the same package mix in the signing-server harness of C14 / X04, an AWS KMS key signs ps1 / jar / PE / MSI in X05; scdaemon, Google and Azure tokens sign no whole package anywhere"]
+                        "file token here; a PKCS#11 token (through real worker processes) signs and verifies the same package mix in the signing-server run of X04 (server-on-workers), an AWS KMS key signs ps1 / jar / PE / MSI in X05; scdaemon, Google and Azure tokens sign no whole package anywhere"]
     return run.finish()
 
 
